@@ -38,13 +38,13 @@ type Engine struct {
 	entryAlloc  *Term
 	copies      []copyRec
 	viewOrigins map[int]viewOrigin
-	initPkg   string
-	cur       *FuncResult
-	logOff    int
-	cellCtr   int
-	iterCtr   int
-	pathCount int
-	stepCount int
+	initPkg     string
+	cur         *FuncResult
+	logOff      int
+	cellCtr     int
+	iterCtr     int
+	pathCount   int
+	stepCount   int
 
 	Results []*FuncResult
 	// trusted things that were used (library specs, trusted contracts, interface contracts)
@@ -68,20 +68,20 @@ type LogEntry struct {
 
 // Obl is one proof obligation.
 type Obl struct {
-	Name   string // stable name: pkg.Func#kind.k[@detail]
-	Fn     string
-	Kind   string
-	Pos    string
-	Desc   string
-	PC     []*Term
-	Goal   *Term
-	Status string // "", "unsat", "sat", "unknown", "timeout", "error"
-	Solver string
-	Time   float64
-	Model  string
-	Trace  []TraceEv
-	Canary bool // must NOT be provable
-	Seq    int
+	Name       string // stable name: pkg.Func#kind.k[@detail]
+	Fn         string
+	Kind       string
+	Pos        string
+	Desc       string
+	PC         []*Term
+	Goal       *Term
+	Status     string // "", "unsat", "sat", "unknown", "timeout", "error"
+	Solver     string
+	Time       float64
+	Model      string
+	Trace      []TraceEv
+	Canary     bool // must NOT be provable
+	Seq        int
 	ParamTerms map[string][]*Term
 }
 
@@ -309,6 +309,25 @@ func (e *Engine) oblige(st *State, kind, detail string, pos token.Pos, goal *Ter
 	if e.logOff > 0 || e.cur == nil || st.Disc != nil {
 		e.assumeQuiet(st, goal)
 		return
+	}
+	// a conjunction with quantified parts is checked conjunct by conjunct (smaller queries, better localisation)
+	if goal.Op == "and" && len(goal.Args) <= 12 {
+		q := false
+		for _, a := range goal.Args {
+			if a.Op == "forall" || a.Op == "exists" {
+				q = true
+			}
+		}
+		if q {
+			for i, a := range goal.Args {
+				d := detail
+				if d != "" {
+					d += "/"
+				}
+				e.oblige(st, kind, fmt.Sprintf("%sc%d", d, i+1), pos, a, desc)
+			}
+			return
+		}
 	}
 	fr := e.cur
 	base := fr.Key + "#" + kind
